@@ -422,6 +422,14 @@ func (e *simEnv) judge(res drive.Result, tag string) (flow *refmatch.Flow, js []
 	}
 	hops := res.Run.Hops
 	first := int(e.spec.MinTTL)
+	for i, h := range hops {
+		// the TTL an entry is reported under is the TTL of the probe its position stands for: everything below judges
+		// entry i as the answer to probe first+i
+		if h.TTL != first+i {
+			c.Violate("C01", "ttl-label/"+v.Name, fmt.Sprintf("%s: entry %d of a run whose first TTL is %d is reported as TTL %d (address %s)", tag, i, first, h.TTL, hopIP(h.IPAddress)), detail())
+			break
+		}
+	}
 	sentAt := map[int]*refmatch.Probe{}
 	for _, p := range f.Probes {
 		if _, ok := sentAt[p.TTL]; !ok {
